@@ -1,10 +1,12 @@
 import Driver.Loop
 import Driver.Calls
-/- drv_calls: `calls <loc|dist> ...` (C01, see Driver/Calls.lean) -/
+import Driver.Forward
+/- drv_calls: `calls <loc|dist> ...` (C01, see Driver/Calls.lean), `fwd <wire|policy|buffiter> ...` (C02, Driver/Forward.lean) -/
 open Rpyc.Drv
 
 def dispatch : List String → String
   | "calls" :: args => callsOp args
+  | "fwd" :: args => fwdOp args
   | _ => "bad-op"
 
 def main : IO Unit := runDriver dispatch
